@@ -240,7 +240,7 @@ func LCount(stmts []*LStmt) int {
 }
 
 // LShrink is statement-level delta debugging: it repeatedly removes single statements (at any
-// depth) and hoists bodies while fails(prog) stays true, with at most budget evaluations.
+// depth, with their bodies) while fails(prog) stays true, with at most budget evaluations.
 func LShrink(prog []*LStmt, fails func([]*LStmt) bool, budget int) []*LStmt {
 	cur := LClone(prog)
 	changed := true
